@@ -156,6 +156,9 @@ class NodeTrace:
             self.prelude = ["OOurChannelReady", "ORecvChannelReady %s" % zlit(self.p1)]
             self.events.append(("announce", INITIAL - 1, self.p1))
             self.first_announced[INITIAL - 1] = self.p1
+        elif self.view.get("ours", False):
+            # a 0-conf acceptor has sent its channel_ready at funding time
+            self.prelude = ["OOurChannelReady"]
         self.released = {}        # commitment number -> secret id this node released for it
         self.htlc_signs = []      # (position in events, number)
         self.bcast_unsigned = []
@@ -199,7 +202,7 @@ class NodeTrace:
             elif act == "deliver" and mine and t == "ready":
                 ops.append("ORecvChannelReady %s" % zlit(args["next_point"]))
             elif act in ("disconnect", "reload", "reload_stale"):
-                ops.append("ODisconnect")
+                ops.append("OReload" if (mine and act != "disconnect") else "ODisconnect")
                 if gone_now:
                     ops.append("OForceClose" if signs_holder else "OChainClose")
             elif act == "mon_complete" and mine:
@@ -369,7 +372,7 @@ def judge_node(tr):
 
 def revoke_corr(ctx, model_ok, release=False):
     quick = ctx.tier == "quick"
-    n_scen, max_steps = (60, 140) if quick else ((300, 160) if release else (800, 200))
+    n_scen, max_steps = (128, 140) if quick else ((300, 160) if release else (800, 200))
     pre = "release_" if release else ""
     seed = ctx.rng.fork("revoke-release" if release else "revoke").next() & ((1 << 62) - 1)
     batches = 8 if quick else 16
